@@ -679,4 +679,65 @@ theorem resolve_samples :
     Glue.resolve [(14, bs "0.0")] 1 14 ⟨0, bs "yyyy/m/d", []⟩ = some (bs "0.0") := by
   decide +kernel
 
+/-! ## the cell reader: normalisation of numeric text, then style → code → format -/
+
+/-- the literals of getValueFrom the normalisation model reads (`precision > 15`, `'G', 15`) -/
+theorem norm_facts_ok : Facts.C10.getValueFromInts = [0, 1, 64, 15, 15, 64] := by decide
+
+/-- text that is not numeric reaches `format` as it is stored -/
+theorem normalize_text (precision : Nat) (short g15 raw : Str) :
+    Glue.normalize false precision short g15 raw = raw := by
+  simp [Glue.normalize]
+
+/-- numeric text of at most 15 digits is re-rendered as the shortest digits of its binary64 value;
+beyond 15 digits as 15 significant digits -/
+theorem normalize_numeric (precision : Nat) (short g15 raw : Str) :
+    Glue.normalize true precision short g15 raw = if precision ≤ 15 then short else g15 := by
+  have h : Glue.normPrecision = 15 := by decide
+  unfold Glue.normalize
+  rw [h]
+  by_cases hp : precision ≤ 15
+  · have : ¬ precision > 15 := by omega
+    simp [hp, this]
+  · have : precision > 15 := by omega
+    simp [hp, this]
+
+/-- an unstyled default-type cell reads as its normalised text -/
+theorem read_unstyled (tok : Str → List Sec) (customs : List (Nat × Str)) (id : Nat) (o : Glue.GOpts)
+    (isNum : Bool) (precision : Nat) (short g15 raw : Str) (n' : NumIn) (d : DateIn) :
+    Glue.read tok customs 0 id o isNum precision short g15 raw n' d =
+      .ok (Glue.normalize isNum precision short g15 raw) := by
+  simp [Glue.read, Glue.formatted, Glue.resolve]
+
+/-- GetCellValue of a default-type cell has no panic outcome for any stored text, style, id,
+culture, patterns and tokeniser -/
+theorem read_total (tok : Str → List Sec) (customs : List (Nat × Str)) (s id : Nat) (o : Glue.GOpts)
+    (isNum : Bool) (precision : Nat) (short g15 raw : Str) (n' : NumIn) (d : DateIn) (h : DateOK d) :
+    Glue.read tok customs s id o isNum precision short g15 raw n' d ≠ .panic :=
+  formatted_total tok customs s id o _ true n' d h
+
+/-- exact decimal layer of the 15-digit cut: a mantissa of `nd > 15` digits rounded to 15 of them is
+within half a unit of the 15th significant digit (`q = 10^(nd-15)` units cut off) -/
+theorem normalize_error_bound (m nd : Nat) (h : 15 < nd) :
+    let q := 10 ^ (nd - 15)
+    let k := Exact.roundScaled m ((15 : Int) - (nd : Int))
+    2 * q * k ≤ 2 * m + q ∧ 2 * m < 2 * q * k + q := by
+  intro q k
+  have hq : 0 < q := Nat.pow_pos (by decide)
+  have hk : k = (2 * m + q) / (2 * q) := by
+    show Exact.roundScaled m ((15 : Int) - (nd : Int)) = _
+    unfold Exact.roundScaled
+    have hneg : ¬ ((15 : Int) - (nd : Int) ≥ 0) := by omega
+    have he : (-((15 : Int) - (nd : Int))).toNat = nd - 15 := by omega
+    simp only [hneg, if_false, he]
+    rfl
+  rw [hk]
+  exact half_unit m q hq
+
+/-- of two custom `<numFmt>` elements with the same id the first in document order is used, whatever
+the built-in table says for that id -/
+theorem resolve_custom_duplicate (id s : Nat) (c1 c2 : Str) (rest : List (Nat × Str)) (o : Glue.GOpts)
+    (hs : s ≠ 0) : Glue.resolve ((id, c1) :: (id, c2) :: rest) s id o = some c1 := by
+  simp [Glue.resolve, hs, List.lookup]
+
 end XlModel.Props.C10
